@@ -229,11 +229,17 @@ package interpreter
 //@   requires f != nil
 //@   atunlock atlock(f.resolved) ==> f.state == atlock(f.state) && f.value == atlock(f.value) && f.err == atlock(f.err) && f.resolved
 //@   atunlock !atlock(f.resolved) ==> f.state == FutureRejected && f.err != nil && f.resolved
+// The settled outcome of a future as two functions of the future: settle-once (the at-unlock clauses of
+// Resolve/Reject/Cancel/Await*) is what makes them well defined; Await hands out exactly that outcome
+// (checked against the fields under the lock, exported to callers as a summary over outErr/outVal).
+//@ spec func outErr(f *Future) error
+//@ spec func outVal(f *Future) interface{}
 //@ func (*Future).Await
 //@   strict
 //@   requires f != nil
-//@   ensures atlock(f.state) == FutureRejected ==> result == nil && err == atlock(f.err)
-//@   ensures atlock(f.state) != FutureRejected ==> result == atlock(f.value) && err == nil
+//@   check atlock(f.state) == FutureRejected ==> result == nil && err == atlock(f.err)
+//@   check atlock(f.state) != FutureRejected ==> result == atlock(f.value) && err == nil
+//@   summary err == outErr(f) && (err == nil ==> result == outVal(f))
 //@   atunlock f.state == atlock(f.state) && f.value == atlock(f.value) && f.err == atlock(f.err) && f.resolved == atlock(f.resolved)
 //@ func (*Future).IsResolved
 //@   strict
@@ -473,3 +479,21 @@ package interpreter
 //@   strict
 //@ func builtinHTTPDelete
 //@   strict
+
+// ---- combinators (C09): All is order-preserving all-or-error; Race and Any settle only with an input's outcome ----
+// All rejects with the error of the first input (by position) that fails and resolves with the inputs'
+// values in order; Race settles with the outcome of one of its inputs; Any resolves only with the value
+// of an input that succeeded and rejects only once every input has been counted as failed.
+//@ func All$1
+//@   requires result != nil && forall(j, 0, len(futures), futures[j] != nil)
+//@   callpre (*interpreter.Future).Reject arg0 == result && 0 <= idx && idx < len(futures) && arg1 == outErr(futures[idx]) && arg1 != nil && forall(j, 0, idx, outErr(futures[j]) == nil)
+//@   callpre (*interpreter.Future).Resolve arg0 == result && typeis(arg1, []interface{}) && len(arg1.([]interface{})) == len(futures) && forall(j, 0, len(futures), outErr(futures[j]) == nil && arg1.([]interface{})[j] == outVal(futures[j]))
+//@   loop 1 invariant 0 <= rangeidx && len(values) == len(futures) && forall(j, 0, rangeidx, futures[j] != nil && outErr(futures[j]) == nil && values[j] == outVal(futures[j]))
+//@ func Race$1
+//@   requires result != nil && future != nil
+//@   callpre (*interpreter.Future).Reject arg0 == result && arg1 == outErr(future) && arg1 != nil
+//@   callpre (*interpreter.Future).Resolve arg0 == result && outErr(future) == nil && arg1 == outVal(future)
+//@ func Any$1
+//@   requires result != nil && future != nil
+//@   callpre (*interpreter.Future).Resolve arg0 == result && outErr(future) == nil && arg1 == outVal(future)
+//@   callpre (*interpreter.Future).Reject arg0 == result && outErr(future) != nil && errorCount == len(futures)
